@@ -1,3 +1,5 @@
+import copy
+
 from datapackage import Package
 
 from .. import DataStreamProcessor, Flow, DataStream
@@ -17,7 +19,8 @@ class sources(DataStreamProcessor):
         source: DataStream
         for source in self.sources:
             for res in source.res_iter:
-                yield res
+                # rows only: the resource is the one declared (and possibly renamed) by this processor
+                yield res.it
 
     def process_datapackage(self, dp: Package):
         super().process_datapackage(dp)
@@ -25,7 +28,19 @@ class sources(DataStreamProcessor):
         source: DataStream
         for source in self.sources:
             res1 = descriptor.pop('resources', [])
-            res2 = source.dp.descriptor['resources']
+            res2 = copy.deepcopy(source.dp.descriptor['resources'])
+            # every source is loaded on its own: give clashing names (e.g. the automatic 'res_1') a free one
+            existing = set(res['name'] for res in res1)
+            for res in res2:
+                name, index = res['name'], len(existing) + 1
+                while name in existing:
+                    name = 'res_{}'.format(index)
+                    index += 1
+                if name != res['name']:
+                    if res.get('path') == '{}.csv'.format(res['name']):
+                        res['path'] = '{}.csv'.format(name)
+                    res['name'] = name
+                existing.add(name)
             descriptor.update(source.dp.descriptor)
             descriptor['resources'] = res1 + res2
         dp.commit()
